@@ -271,7 +271,11 @@ func (i ItemCollection) Equals(with Item) bool {
 			return nil
 		}
 		for _, it := range i {
-			if !w.Contains(it.GetLink()) {
+			if lnk := it.GetLink(); len(lnk) > 0 && w.Contains(lnk) {
+				continue
+			}
+			// members without an id can only be matched by their contents
+			if !w.Contains(it) {
 				result = false
 				return nil
 			}
